@@ -333,5 +333,32 @@ NAMED_CLASSES = {
 # known findings: finding class number -> key; key -> raise sites (function, class-or-superclass, kind prefix)
 # The guard of the theorems is: "an escaping site is either in the allowed channel or is one of exactly these sites".
 # -----------------------------------------------------------------------------------------------------------
-FINDING_KEYS = {}
-FINDING_SITES = {}
+PATHERR = "jsonargparse._util.PathError"
+FINDING_KEYS = {
+    1: "cfg-value-not-str",
+    2: "recursive-yaml-alias",
+    3: "config-content-unreadable",
+    4: "path-nul-byte",
+    5: "parse-path-patherror",
+    6: "type-import-error",
+    7: "argument-type-error",
+    8: "help-subparser-exit",
+    9: "default-config-argument-error",
+    10: "nested-parser-argument-error",
+}
+# key -> [(function, class or superclass, kind prefix, modes)]; modes: "t" = only when exit_on_error=True, "f" = only
+# when False, "tf" = both. A site is a finding site only if it ESCAPES an entry point and its class is not the
+# allowed channel of that mode; everything else that escapes is an alarm.
+FINDING_SITES = {
+    "cfg-value-not-str": [("_loaders_dumpers.yaml_load", AE, "implicit", "tf")],
+    "recursive-yaml-alias": [("_typehints.adapt_typehints", "builtins.RecursionError", "implicit", "tf")],
+    "config-content-unreadable": [("_util.Path.get_content", OS, "ext:open", "tf"), ("_util.Path.get_content", VE, "ext:open", "tf"),
+                                  ("_util.Path.get_content", OS, "ext:.read", "tf"), ("_util.Path.get_content", VE, "ext:.read", "tf")],
+    "path-nul-byte": [("_util.Path.__init__", VE, "ext:os.", "tf")],
+    "parse-path-patherror": [("_util.Path.__init__", PATHERR, "raise", "tf")],
+    "type-import-error": [("_util.import_object", IE, "ext:builtins.__import__", "tf"), ("_util.import_object", AE, "dyn:getattr", "tf")],
+    "argument-type-error": [("_core.ArgumentParser._check_value_key", "argparse.ArgumentTypeError", "dyn:action.type", "tf")],
+    "help-subparser-exit": [("_actions._ActionHelpClassPath.print_help", EXIT2, "boundary:", "f")],
+    "default-config-argument-error": [("_core.ArgumentParser.get_defaults", ARGERR, "raise", "t")],
+    "nested-parser-argument-error": [("_core.ArgumentParser.error", ARGERR, "raise", "t")],
+}
